@@ -25,7 +25,8 @@ func (u *UseAssignmentOperator) Fix(fc *FixCandidate, opts *RuntimeOptions) ([]F
 			continue
 		}
 
-		line := lines[loc.Row-1]
+		// columns are counted in runes, not bytes
+		line := []rune(lines[loc.Row-1])
 
 		if loc.Column-1 < 0 || loc.Column-1 >= len(line) {
 			continue
@@ -36,7 +37,7 @@ func (u *UseAssignmentOperator) Fix(fc *FixCandidate, opts *RuntimeOptions) ([]F
 			continue
 		}
 
-		lines[loc.Row-1] = line[0:loc.Column-1] + ":" + line[loc.Column-1:]
+		lines[loc.Row-1] = string(line[0:loc.Column-1]) + ":" + string(line[loc.Column-1:])
 		fixed = true
 	}
 
